@@ -176,6 +176,18 @@ def run_case(case):
         else:
             gj = ops.group(rd, roots, gargs + ["-f", "json"], env=env, seed=case["seam_seed"], now_ns=T0_NS)
             rep = report.parse_json(gj.out)
+        if case["op"] == "move" and case["i"] % 3 == 0:
+            # something unrelated already lives at the mapped location of one listed file
+            listed_abs = sorted(p for grp in rep.groups for p in grp.paths)
+            if listed_abs:
+                victim = listed_abs[case["i"] % len(listed_abs)]
+                tgt = os.path.join(rd.wb(), b"T") + victim
+                try:
+                    os.makedirs(os.path.dirname(tgt), exist_ok=True)
+                    with open(tgt, "wb") as f:
+                        f.write(b"unrelated pre-existing file %d\n" % case["i"])
+                except OSError:
+                    pass
         before = inventory(rd.world)
         orig = {p: read_through(rd.world, p) for p, e in before.items() if e.type in ("f", "l")}
         # replica structure of every reported group, computed before anything changes
